@@ -554,6 +554,14 @@ func (i *interpreter) unmarshalAny(fr *frame, data value, dst value, mode *codec
 			}
 		}
 	}
+	if !ok && len(b) == 0 && mode == modeProto {
+		// protobuf: empty input is the default message
+		pt, okp := it.t.Underlying().(*types.Pointer)
+		if pv, okv := it.v.(*value); okp && okv && pv != nil {
+			store(pt.Elem(), pv, zero(pt.Elem()))
+			return iface{}
+		}
+	}
 	if !ok {
 		// undecodable concrete bytes: the codec reports an error (A-CODEC: total)
 		if bz, okc := concreteBytes(b); okc {
